@@ -2664,6 +2664,13 @@ class FnTranslator:
         if k == "str" and m == "starts_with" and len(args) == 1:
             px, pt = self.expr(args[0], env, pre, ("str",)); self.check_ty(pt, ("str",), "starts_with")
             return "(String.isPrefixOf %s %s)" % (px, base), BOOL, "val"
+        # (added for C18, derive.rs) `"literal".as_bytes()`: the UTF-8 bytes of a string *literal*, spelled out (no
+        # string function on the Lean side: kernel-reducible); any other `&str` receiver stays outside the subset
+        if k == "str" and m == "as_bytes" and not args:
+            r0 = recv
+            while r0[0] in ("paren", "ref"): r0 = r0[1]
+            if r0[0] != "str": raise RsError("method .as_bytes on a &str that is not a literal is outside the subset (line %d)" % line)
+            return "[" + ", ".join(str(b) for b in r0[1].encode("utf-8")) + "]", ("vec", ("int", "u8")), "val"
         if k == "map" and bt[1] == ("str",) and m == "get" and len(args) == 1:
             kk, kt = self.expr(args[0], env, pre, ("str",)); self.check_ty(kt, ("str",), "map key")
             return "(Rs.smapGet %s %s)" % (base, kk), ("opt", bt[2]), "val"
